@@ -19,8 +19,10 @@ const MAX_RECURSION_DEPTH: usize = 100;
 // Operator, call, index and member chains are parsed in loops, so `a + a + ... + a` never
 // recurses in the parser, but every link nests the syntax tree one level deeper and everything
 // after the parser (type inference, the optimiser, code generation, even dropping the tree)
-// recurses over it. Type inference gives up beyond a depth of 200, so a chain this long was
-// never accepted anyway; the bound only has to keep the tree shallow enough to walk and to drop.
+// recurses over it. What is bounded is therefore the depth of the tree in links: a chain is as
+// deep as its deepest operand plus its own links, so `((1 + .. + 1) + .. + 1) + ..` adds up
+// across parentheses. Type inference gives up beyond a depth of 200, so nothing this deep was
+// ever accepted; the bound only has to keep the tree shallow enough to walk and to drop.
 const MAX_CHAIN_LINKS: usize = 1000;
 
 pub struct Parser {
@@ -28,7 +30,7 @@ pub struct Parser {
     current: usize,
     pub(crate) source: Arc<Source>,
     recursion_depth: usize,
-    chain_links: usize, // links of the chains that enclose the current position
+    chain_peak: usize, // depth in links of the deepest expression completed since the enclosing chain began
 }
 
 impl Parser {
@@ -38,7 +40,7 @@ impl Parser {
             current: 0,
             source,
             recursion_depth: 0,
-            chain_links: 0,
+            chain_peak: 0,
         }
     }
 
@@ -70,15 +72,26 @@ impl Parser {
         Ok(())
     }
 
-    /// One more link (`+ b`, `.m`, `[i]`, `(args)`) of the chain being parsed.
-    pub(crate) fn chain_link(&mut self) -> Result<()> {
-        self.chain_links += 1;
-        if self.chain_links > MAX_CHAIN_LINKS {
+    /// A chain starts: from here on `chain_peak` collects the depth of its operands.
+    pub(crate) fn chain_begin(&mut self) -> usize {
+        std::mem::replace(&mut self.chain_peak, 0)
+    }
+
+    /// One more link (`+ b`, `.m`, `[i]`, `(args)`) on top of the operands parsed so far.
+    pub(crate) fn chain_link(&mut self, links: &mut usize) -> Result<()> {
+        *links += 1;
+        if self.chain_peak + *links > MAX_CHAIN_LINKS {
             return Err(self.error(CompileErrorKind::RecursionDepthExceeded {
                 max: MAX_CHAIN_LINKS,
             }));
         }
         Ok(())
+    }
+
+    /// The chain is complete: it is as deep as its deepest operand plus its links, and it is
+    /// itself an operand of the chain around it (`outer` is what `chain_begin` returned).
+    pub(crate) fn chain_end(&mut self, outer: usize, links: usize) {
+        self.chain_peak = outer.max(self.chain_peak + links);
     }
 
     pub(crate) fn exit_recursion(&mut self) {
